@@ -54,6 +54,14 @@ theorem bad_constraint_stops_installed (lim : Nat → Nat) (pre post : List Op) 
     (observe installedTag lim (pre ++ op :: post)).diag = (observe installedTag lim (pre ++ op :: post)).errs :=
   bad_constraint_stops installedTag lim pre post op ks h hbad
 
+/-- … and so does the generator process: exit code 1, whatever the number of faults and the error limit. -/
+theorem fault_exit_nonzero_installed (lim : Nat → Nat) (mx : Nat) (ops : List Op) (k : Nat)
+    (h : faultAt installedTag Ctx.init ops k = true) :
+    (observeAt installedTag lim mx ops).exit = 1 ∧
+    (observeAt installedTag lim mx ops).asm = 0 ∧ (observeAt installedTag lim mx ops).stubs = 0 :=
+  let t := fault_exit_nonzero installedTag lim mx ops k h
+  ⟨t.1, t.2.2.1, t.2.2.2.1⟩
+
 /-! ### The boundary of the character class, at the measured table
 
 Letters of every kind (Lu Ll Lt Lm Lo) and decimal digits (Nd) of every script
